@@ -11,7 +11,8 @@ Definition c02_min_of (tb : tiebreak) (st : scratch) : Z := snd (scan_min tb (sc
 Definition c02_conv := conv.
 Definition c02_dist := dist.
 Definition c02_soft_limit := soft_limit.
-Definition c02_masks := map (fun g => (g_rx g, g_in g, g_out g, g_mask g)) geoms.
+Definition c02_masks := map (fun g => (g_in g, g_out g, g_mask g, dfree (g_mask g) (g_out g))) geoms.
+Definition c02_dfree := dfree.
 Definition c02_llr := vit_LLR.
 Extraction "c02_model.ml" c02_decode_gen c02_scratch0 c02_tables c02_min_of c02_conv c02_dist c02_soft_limit
-  c02_masks c02_llr Build_tiebreak source_tiebreak viterbi_decode.
+  c02_masks c02_dfree c02_llr Build_tiebreak source_tiebreak viterbi_decode.
